@@ -39,7 +39,8 @@ EXPLANATION = (
     'strict steps are taken per unit (X1, shared with C09); a trapezoid repair '
     'on a pair that monotonicity of the conditional feature pins to equality '
     'must be exact, not a dominating maximum (L9). The loops of the strict '
-    'repairs cover every pair of adjacent vertices (A5).')
+    'repairs cover every pair of adjacent vertices (A5).'
+    ' Parallel statements for paired roles vary consistently (CP1), and a constraint tuple is only looked up among tuples (T4 membership).')
 ASSUMPTIONS = ['tf.maximum/minimum/reduce_max/reduce_min semantics',
                'configurations rejected by verify_hyperparameters do not occur']
 
